@@ -78,6 +78,10 @@ fn catalogue(seed: u64, tier: &str) -> Vec<Value> {
             let ks: Vec<Value> = (0..*n).map(|_| nat(&rand_scalar_bits(&mut rr, 255))).collect();
             let base = if *g == "G1" { aff_to_j(&G1::one().into_affine()) } else { aff_to_j(&G2::one().into_affine()) };
             v.push(json!({"op": "msml", "g": g, "fn": "default", "base": base, "a": a, "scalars": ks, "cls": "long-running-msm"}));
+            // the table-driven variant on an input large enough for any internal splitting
+            let m = 160usize.min(*n);
+            v.push(json!({"op": "msml", "g": g, "fn": "precomp", "base": base, "a": a[..m].to_vec(), "scalars": ks[..m].to_vec(),
+                          "cls": "long-running-msm-precomp"}));
         }
     }
     // one entry point, inputs with different verdicts next to each other: for every encoding a valid
